@@ -195,6 +195,8 @@ def run(ctx):
             ctx.report('zinc.restable:%s%s:%s' % (v, where, s['template'].rstrip('0123456789')),
                        '%s: %r decodes to %s, re-encodes to %r, which decodes to %s' % (v, bytes.fromhex(s['input']), str(n.get('ok'))[:160], bytes.fromhex(s.get('text2') or ''), str(t2)[:160]),
                        case=s['native_case'])
+    # Hayson: what the visitor accepts re-encodes to something that decodes to the same value
+    hayson_stage(ctx, prog)
     # (b) the reader contract
     ctx.cov['reader_methods_seen'] = dict(methods); ctx.cov['max_bytes_per_read_request'] = maxreq
     bad_methods = [m_ for m_ in methods if m_ != 'read_exact']
@@ -207,6 +209,97 @@ def run(ctx):
     if unsup: ctx.note_inconclusive('%d paths ended in an unmodelled construct: %s' % (sum(unsup.values()), list(unsup)[:3]))
     ctx.assume("std::io::Read::read_exact's contract (retries Interrupted, loops over short reads) makes chunk boundaries invisible when only 1-byte read_exact calls are made")
     ctx.obligation('restable+reader-contract+laziness', 'held' if not ctx.violations else 'violated', paths=len(S))
+
+
+# --------------------------------------------------------------------------- Hayson: decode(tree) -> encode -> decode
+class _HaysonRestable:
+    """the JSON trees of C03's Hayson exploration (objects of every _kind, members absent / wrong-typed / symbolic, both
+    member orders) plus reference spellings of numbers; whatever the visitor accepts is serialised again and decoded again"""
+    @staticmethod
+    def path(ex, t):
+        from props import C03, hayson_common as hc
+        st = {'stage': 'decode1'}; ex.side['st'] = st
+        r = C03.hayson_path(ex, t)
+        st['dec1'] = r
+        if r.variant != 0: return st
+        st['stage'] = 'encode'
+        kind, tree2 = hc.encode(ex, r.fields[0])
+        st['enc'] = kind
+        if kind != 'ok': return st
+        st['tree2'] = tree2; st['stage'] = 'decode2'
+        st['dec2'] = hc.decode(ex, tree2, HV(ex).ty('Value')); st['stage'] = 'done'
+        return st
+
+    @staticmethod
+    def post(ex, t, r):
+        from props import hayson_common as hc
+        if r.kind == 'unsupported': return {'kind': 'unsupported', 'detail': r.detail, 'where': r.where}
+        st = ex.side.get('st') or {}
+        s = {'kind': r.kind, 'detail': r.detail, 'where': r.where, 'stage': st.get('stage'), 'mode': 'hayson'}
+        viol = None; cond = None
+        if r.kind in ('panic', 'bound'):
+            if st.get('stage') in ('encode', 'decode2'): viol = '%s-in-%s' % (r.kind, st.get('stage'))
+        elif 'dec1' in st and st['dec1'].variant == 0:
+            if st.get('enc') != 'ok': viol = 'encode-error-on-decoded-value'
+            elif st['dec2'].variant != 0: viol = 'reencoded-tree-rejected'
+            else:
+                eq = sym_eq(ex, st['dec1'].fields[0], st['dec2'].fields[0])
+                if eq is False: viol = 'reencoded-value-differs'
+                elif eq is not True and ex.sat(z3.Not(eq)) is not None: viol = 'reencoded-value-differs'; cond = z3.Not(eq)
+        try:
+            if cond is not None: ex.assume(cond)
+            m = ex.model()
+        except Infeasible:
+            return None
+        cz = Concretizer(ex, m)
+        tj = hc.tj(cz, ex.side['tree'])
+        s['input'] = json.dumps(tj); s['native_case'] = {'api': 'json_decode', 'tree': tj}
+        s['expect'] = ('ok' if ('dec1' in st and st['dec1'].variant == 0) else 'err') if r.kind == 'ok' or st.get('stage') != 'decode1' else r.kind
+        if 'dec1' in st and st['dec1'].variant == 0:
+            try: s['value1'] = cz.value(st['dec1'].fields[0])
+            except Unsupported as u: s['value_unsupported'] = str(u)
+        if ex.side.get('named_zone'): s['zone_axiom'] = True
+        s['viol'] = viol
+        return s
+
+
+def hayson_stage(ctx, prog):
+    from props import C03
+    H = sym.explore_templates(ctx, _HaysonRestable, [dict(t, conc_numbers=True) for t in C03.hayson_templates(ctx)], prog, split_depth=4, budget_s=120 if ctx.quick() else 600)
+    sym.native_check(ctx, H)
+    # second native pass: the decoded value through serde_json text and back
+    extra = [{'kind': 'aux', 'ref': h, 'native_case': {'api': 'json_roundtrip', 'v': norm_native(h['native']['ok'])}} for h in H
+             if h.get('kind') != 'unsupported' and isinstance(h.get('native'), dict) and 'ok' in h['native']]
+    sym.native_check(ctx, extra)
+    for e in extra: e['ref']['rt'] = e.get('native')
+    mism = 0; validated = 0; unsup = collections.Counter()
+    for h in H:
+        if h['kind'] == 'unsupported': unsup[(h.get('template', '?') + ': ' + h['detail'])[:110]] += 1; continue
+        n = h.get('native') or {}
+        o = native.outcome(n)
+        if h['kind'] == 'ok' and o != h.get('expect'):
+            mism += 1
+            if mism <= 5: print('MODEL-MISMATCH hayson %s: mirsym %s native %s' % (h['input'][:200], h.get('expect'), str(n)[:200]))
+            continue
+        validated += 1
+        rt = h.get('rt')
+        v = h.get('viol')
+        if o != 'ok' or rt is None: continue
+        same = rt.get('same')
+        if same is False and 'ok' in rt: same = ze.norm_grid_meta(norm_native(rt['ok'])) == ze.norm_grid_meta(norm_native(n['ok']))
+        nat_bad = (same is False) or ('err' in rt) or ('enc_err' in rt) or ('panic' in rt)
+        if h.get('zone_axiom') and not v: nat_bad = ('err' in rt) or ('enc_err' in rt) or ('panic' in rt)
+        if bool(v) != nat_bad:
+            mism += 1
+            if mism <= 5: print('MODEL-MISMATCH hayson %s: mirsym verdict %s, native re-encode %s' % (h['input'][:200], v, str(rt)[:200]))
+            continue
+        if v:
+            ctx.report('hayson.restable:%s:%s' % (v, h['template']), '%s: the tree %s decodes to %s, which re-encodes / re-decodes as %s' % (v, h['input'][:200], json.dumps(n.get('ok'))[:160], str(rt)[:200]),
+                       case=h['native_case'])
+    ctx.cov['traces_validated_against_impl'] += validated
+    ctx.cov['hayson_paths'] = len(H)
+    if mism: ctx.note_inconclusive('%d Hayson paths where the native build disagrees with the encoding (model mismatch)' % mism)
+    if unsup: ctx.note_inconclusive('%d Hayson paths ended in an unmodelled construct: %s' % (sum(unsup.values()), list(unsup)[:3]))
 
 
 def has_empty_row(j):
